@@ -432,6 +432,8 @@ def std_trait(engine, st, ty, tyb, tb, method, args, dest_ty, trait=None):
         return RefV(s, i)
     if tyb == 'f64' and tb in ('Add', 'Sub', 'Mul'):
         return engine.binop(st, tb, args[0], args[1])
+    if tb in ('Rem', 'Div') and method in ('rem', 'div') and isinstance(deref_all(args[0]), IV) and isinstance(deref_all(args[1]), IV):
+        return engine.binop(st, tb, deref_all(args[0]), deref_all(args[1]))
     if tb in ('Add', 'Sub', 'Mul') and method in ('add', 'sub', 'mul') and isinstance(deref_all(args[0]), IV) and isinstance(deref_all(args[1]), IV):
         # operator impls on (references to) primitive integers: overflow-checked like the plain operator
         return engine.binop(st, tb, deref_all(args[0]), deref_all(args[1]))
